@@ -299,8 +299,9 @@ def batch_cfg(maxvals):
 def judge(ck, events, label, semmax):
     if not events:
         return
+    # FlattenSeq / the slot walk recurse once per batch / slot: long lists need a deeper Java stack
     verdicts = ck.trace("BugQuery_Trace", events, label=label, cfg_text=f"SPECIFICATION TraceSpec\nCONSTANT SemMax = {semmax}\n",
-                        timeout=1500)
+                        timeout=2400, env={"JAVA_TOOL_OPTIONS": "-Xss512m"})
     by = {e["tid"]: e for e in events}
     for v in verdicts:
         e = by[v["tid"]]
@@ -372,8 +373,8 @@ def run(ck):
         events.append(ev)
         ck.count()
     ck.sample(dict(direction="code->spec", expr=show(events[-1]["expr"])))
-    for _ in range(ck.pick(100, 1200)):
-        e, base, mx = rnd_batch(r, ck.pick(300, 2000))
+    for _ in range(ck.pick(100, 600)):
+        e, base, mx = rnd_batch(r, ck.pick(300, 1000))
         ev = observe_batch(real, len(events), e, base, mx)
         if len(ev["bs"]) >= 2:
             ck.nontriv(("b", show(e), base, mx))
